@@ -1,6 +1,118 @@
-(* C09 -- placeholder while the proofs are being developed; replaced below. *)
-From Coq Require Import List NArith.
-From WV Require Import Lib.PyBytes Model.Task.
-Theorem C09_placeholder : forall n : N, n = n.
+(* C09 -- Application failures are contained and the iterable is always closed.
+   Statements only; proofs in Proof/TaskC09.v (ladder, exception classes,
+   close() counting, traceback non-interference), Proof/TaskRun.v /
+   Proof/TaskC08.v (nothing precedes the head; the 500 is built from server
+   strings).  All statements are for ALL scripts (any actions at any step, an
+   exception of any class at any step including close()), all disconnect
+   positions, all settings. *)
+From Coq Require Import String.
+From Coq Require Import List NArith ZArith Bool.
+From WV Require Import Lib.PyBytes Gen.GenTables Model.Task Proof.TaskHead Proof.TaskRun Proof.TaskOracle
+  Proof.TaskC08 Proof.TaskC09.
+Import ListNotations.
+Local Open Scope N_scope.
+
+(* close() of the application's iterable: at most once; exactly once when the
+   application returned an iterable that has close(), except when a file wrapper
+   was handed over to the channel (then not at all by the task: the channel owns
+   and closes the file); never when no iterable was returned. *)
+Theorem C09_close_once : forall c r a disc,
+  let res := run_task c r a disc in
+  (o_closes res <= 1)%nat
+  /\ (o_iter res = false -> o_closes res = 0%nat /\ o_handover res = false)
+  /\ (o_iter res = true -> a_has_close a = true ->
+      (o_closes res = 1%nat /\ o_handover res = false) \/ (o_closes res = 0%nat /\ o_handover res = true))
+  /\ (o_iter res = true -> a_has_close a = false -> o_closes res = 0%nat)
+  /\ (o_handover res = true -> a_kind a = KFile true).
+Proof. exact (close_once py_cap py_lower). Qed.
+Print Assumptions C09_close_once.
+
+(* The outcome of HTTPChannel.service() by what was raised (outcome_spec, in
+   Proof/TaskC09.v):
+   - nothing raised: nothing escapes, no 500, the bytes are the task's own;
+   - ClientDisconnected: closed, no further bytes;
+   - an Exception after output began: closed, no further bytes;
+   - an Exception before any output: the ladder's 500 is served, then closed
+     (the only exception the 500 task itself can let out is an encode error of
+     the server's own strings);
+   - an OSError subclass with log_socket_errors off: closed silently (F16);
+   - a BaseException subclass that is not an Exception: it ESCAPES; neither the
+     close branch nor the next-request branch is taken (F15). *)
+Theorem C09_outcome : forall c r a disc, outcome_spec c (run_task c r a disc).
+Proof. exact (fun c r a disc => service_outcome py_cap py_lower c r disc a). Qed.
+Print Assumptions C09_outcome.
+
+(* The property as stated, outside the two open classes: if what was raised is an
+   Exception that is not an OSError (or log_socket_errors is on), then before any
+   output the 500 is served and the connection closed, after output the
+   connection is closed without further bytes; nothing escapes unless the
+   server's own strings cannot be encoded. *)
+Theorem C09_contained_partial : forall c r a disc e,
+  let res := run_task c r a disc in
+  o_raw res = Some e ->
+  exn_eqb e ClientDisconnected = false ->
+  is_Exception e = true ->
+  (is_OSError e = false \/ c_log_socket_errors c = true) ->
+  (o_wrote_header1 res = true ->
+     o_close res = true /\ o_next res = false /\ o_escaped res = None
+     /\ o_served_500 res = false /\ o_writes res = o_writes1 res)
+  /\ (o_wrote_header1 res = false ->
+     o_served_500 res = true
+     /\ (o_escaped res = None -> o_close res = true /\ o_next res = false)
+     /\ (forall e1, o_escaped res = Some e1 -> e1 = UnicodeEncodeError)).
+Proof. exact (contained_partial py_cap py_lower). Qed.
+Print Assumptions C09_contained_partial.
+
+(* Whatever leaves service() is a BaseException subclass raised through the
+   application (then nothing was decided), or an encode error of the 500. *)
+Theorem C09_escape : forall c r a disc e,
+  let res := run_task c r a disc in
+  o_escaped res = Some e ->
+  (is_Exception e = false /\ o_raw res = Some e /\ o_served_500 res = false
+   /\ o_close res = false /\ o_next res = false)
+  \/ (e = UnicodeEncodeError /\ o_served_500 res = true).
+Proof. exact (escape_partial py_cap py_lower). Qed.
+Print Assumptions C09_escape.
+
+(* The worker survives: handler_thread's catch-all turns whatever escaped
+   service() into a log record; the loop goes on (handler_thread is a total
+   function returning the record). *)
+Theorem C09_worker_survives : forall c r a disc,
+  handler_thread py_cap py_lower c r a disc = (run_task c r a disc, o_escaped (run_task c r a disc)).
 Proof. reflexivity. Qed.
-Print Assumptions C09_placeholder.
+Print Assumptions C09_worker_survives.
+
+(* No traceback text unless expose_tracebacks: with the setting off the whole
+   result, wire bytes included, is independent of the traceback text. *)
+Theorem C09_no_traceback_leak : forall c1 c2 r a disc,
+  cfg_eqv c1 c2 ->
+  c_expose_tracebacks c1 = false -> c_expose_tracebacks c2 = false ->
+  run_task c1 r a disc = run_task c2 r a disc.
+Proof. exact (fun c1 c2 r a disc H => no_traceback_leak py_cap py_lower c1 c2 H r a disc). Qed.
+Print Assumptions C09_no_traceback_leak.
+
+(* The 500 served before any output is a function of server strings only and
+   nothing precedes it (from C08). *)
+Theorem C09_500_complete : forall c r disc a,
+  cfg_clean c ->
+  match r_error r with Some e => err_clean e | None => True end ->
+  app_ok a ->
+  let res := run_task c r a disc in
+  o_served_500 res = true ->
+  o_writes1 res = [] /\ o_writes res = response_500 py_cap py_lower c r disc (o_nws1 res).
+Proof. exact (fun c r disc a Hc Hr => served_500_bytes py_cap py_lower py_cap_clean c Hc r disc Hr a). Qed.
+Print Assumptions C09_500_complete.
+
+(* The full statement is false of the faithful model in two classes. *)
+Theorem C09_baseexception_refuted :
+  let res := run_task sample_cfg sample_req base_app None in
+  o_escaped res = Some AppBaseException /\ o_writes res = [] /\ o_close res = false /\ o_next res = false.
+Proof. exact baseexception_limbo. Qed.
+Print Assumptions C09_baseexception_refuted.
+
+Theorem C09_oserror_refuted :
+  let res := run_task quiet_cfg sample_req oserr_app None in
+  o_raw res = Some AppOSError /\ o_wrote_header1 res = false
+  /\ o_served_500 res = false /\ o_writes res = [] /\ o_close res = true.
+Proof. exact oserror_swallowed. Qed.
+Print Assumptions C09_oserror_refuted.
